@@ -68,7 +68,8 @@ def _loss(size, cb, x1, x2, a2, x3, a3, x4, a4, t, _twin, instant):
                 w.fail(203)
         try:
             act(it, select(SPAWN, x1), 0)
-            drive(w, it, alpha, [(NOP, 0), (x2, a2), (x3, a3), (x4, a4)], t, idle)
+            # three-step programmes are wound down newest callback first (the two-step ones oldest first)
+            drive(w, it, alpha, [(NOP, 0), (x2, a2), (x3, a3), (x4, a4)], t, idle, newest_first=(x4 != NOP))
         except Excluded as e:
             w.excluded = str(e)
         code = w.err
